@@ -26,3 +26,18 @@ package lwk
 //@ requires r != nil
 //@ ensures @C20,C04 height-is-tip: result1 == nil ==> (r.blockHeight > 0 && r.blockHeight <= 4294967295 && mi(result0) == mi(r.blockHeight) && r.terminalErr == nil)
 //@ ensures @C20 no-tip-is-error: (r.blockHeight <= 0 || r.terminalErr != nil || r.blockHeight > 4294967295) ==> result1 != nil
+
+// C18: registration runs under the registering swap's mutex (it is an action of
+// that swap's state machine); the CSV callback re-enters the state machine and
+// takes the same mutex: nothing may have been reported when registration returns
+// (the observers are evaluated by the header subscription's goroutine only).
+//@ func (*electrumTxWatcher).AddWaitForCsvTx
+//@ property C18
+//@ requires r != nil && !ghost.reported
+//@ ensures @C18 no-callback-before-return: !ghost.reported
+//@ nosend @C18
+//@ func (*electrumTxWatcher).AddWaitForConfirmationTx
+//@ property C18
+//@ requires r != nil && !ghost.reported
+//@ ensures @C18 no-callback-before-return: !ghost.reported
+//@ nosend @C18
